@@ -48,6 +48,8 @@ func main() {
 	out := flag.String("out", "", "output base path (summary .json, .hashes, .last)")
 	replay := flag.Int64("replay", -1, "re-execute this single case verbosely")
 	list := flag.Bool("list", false, "list engines")
+	dumpChunk := flag.Int("dumpchunk", -1, "print the steps of this transcript chunk (C07)")
+	transcriptOnly := flag.Bool("transcriptonly", false, "run only the Finish stage (C07 transcript)")
 	flag.Parse()
 	debug.SetPanicOnFault(true)
 
@@ -68,6 +70,14 @@ func main() {
 		os.Exit(3)
 	}
 	c := hx.NewCtx(*prop, *tier, *seed, *shard, *nshards, *out)
+	c.DumpChunk = *dumpChunk
+	if *transcriptOnly {
+		if e.Setup != nil {
+			e.Setup(c)
+		}
+		e.Finish(c)
+		return
+	}
 	if *replay >= 0 {
 		c.Verbose = true
 		c.NShards = 1
